@@ -289,10 +289,11 @@ inline std::string classify_sanitizer(const std::string& err) {
             size_t in = err.find(" in ", q); if (in == std::string::npos) break;
             size_t e = err.find_first_of("\n", in); std::string fn = err.substr(in + 4, e - in - 4);
             q = e;
-            if (fn.find("Tins::") != std::string::npos) {
-                size_t par = fn.find('('); if (par != std::string::npos) fn = fn.substr(0, par);
-                size_t sp = fn.find(' '); if (sp != std::string::npos) fn = fn.substr(0, sp);
-                frame = fn; break;
+            size_t tp = fn.find("Tins::");
+            if (tp != std::string::npos) {
+                // the qualified function name around "Tins::": back to the previous space, forward to '(' or ' '
+                size_t b0 = fn.rfind(' ', tp); b0 = b0 == std::string::npos ? 0 : b0 + 1; size_t e0 = fn.find_first_of("( ", tp); if (e0 == std::string::npos) e0 = fn.size();
+                frame = fn.substr(b0, e0 - b0); break;
             }
         }
     }
